@@ -201,11 +201,18 @@ impl Driver {
         // `DriverFlags::NO_IOWAIT`) by carrying NO_IOWAIT on the same
         // submit-and-wait `enter`.
         let can_block = want_sqe > 0 && timeout != Some(Duration::ZERO);
+        #[cfg(compio_verif)]
+        {
+            crate::verif::emit(crate::verif::ENTER, want_sqe as u64, can_block as i64);
+            crate::verif::sched_point(3);
+        }
         let res = if self.flags.contains(DriverFlags::NO_IOWAIT) && can_block {
             self.submit_and_wait_no_iowait(want_sqe, timeout)
         } else {
             self.submit_and_wait(want_sqe, timeout)
         };
+        #[cfg(compio_verif)]
+        crate::verif::emit(crate::verif::ENTER_RETURN, 0, 0);
         trace!("submit result: {res:?}");
         match res {
             Ok(_) => {
@@ -284,6 +291,8 @@ impl Driver {
                     let flags = entry.flags();
                     if !more(flags) {
                         self.flags.insert(DriverFlags::NEED_PUSH_NOTIFIER);
+                        #[cfg(compio_verif)]
+                        crate::verif::emit(crate::verif::NOTIFIER_DISARMED, 0, 0);
                     }
                     if let Err(e) = self.notifier.clear() {
                         error!("failed to clear notifier: {e:?}");
@@ -292,6 +301,8 @@ impl Driver {
                 key => {
                     let flags = entry.flags();
                     if more(flags) {
+                        #[cfg(compio_verif)]
+                        crate::verif::emit(crate::verif::CQE_MORE, key, entry.result() as i64);
                         let key = unsafe { BorrowedKey::from_raw(key as _) };
                         let mut key = key.borrow();
                         let mut extra: crate::sys::Extra = IourExtra::new().into();
@@ -321,6 +332,8 @@ impl Driver {
 
     pub fn cancel(&mut self, key: ErasedKey) {
         instrument!(compio_log::Level::TRACE, "cancel", ?key);
+        #[cfg(compio_verif)]
+        crate::verif::emit(crate::verif::CANCEL_PUSH, key.as_raw() as u64, 1);
         trace!("cancel RawOp");
         unsafe {
             #[allow(clippy::useless_conversion)]
@@ -336,6 +349,8 @@ impl Driver {
                 .is_err()
             {
                 warn!("could not push AsyncCancel entry");
+                #[cfg(compio_verif)]
+                crate::verif::emit(crate::verif::CANCEL_PUSH, key.as_raw() as u64, 0);
             }
         }
     }
@@ -345,6 +360,8 @@ impl Driver {
         let entry = entry.user_data(user_data as _);
         self.push_raw(entry)?; // if push failed, do not leak the key. Drop it upon return.
         self.in_flight.insert(user_data);
+        #[cfg(compio_verif)]
+        crate::verif::emit(crate::verif::SUBMIT, user_data as u64, 0);
         key.into_raw();
         Ok(())
     }
@@ -422,8 +439,16 @@ impl Driver {
         let completed = self.completed_tx.clone();
         // SAFETY: we're submitting into the driver, so it's safe to freeze here.
         let mut key = unsafe { key.freeze() };
+        #[cfg(compio_verif)]
+        let verif_addr = key.as_mut() as *mut _ as *const () as u64;
+        #[cfg(compio_verif)]
+        crate::verif::emit(crate::verif::BLOCKING_DISPATCH, verif_addr, 0);
         let mut closure = move || {
+            #[cfg(compio_verif)]
+            crate::verif::emit(crate::verif::BLOCKING_START, verif_addr, 0);
             let res = catch_unwind_io(AssertUnwindSafe(|| key.as_mut().carrier.call_blocking()));
+            #[cfg(compio_verif)]
+            crate::verif::emit(crate::verif::BLOCKING_END, verif_addr, 0);
             let _ = completed.send(Entry::new(key.into_inner(), res));
             waker.wake();
         };
@@ -449,6 +474,8 @@ impl Driver {
         trace!("start polling");
 
         let need_wait = !self.notifier.reset();
+        #[cfg(compio_verif)]
+        crate::verif::sched_point(1);
 
         if self.flags.contains(DriverFlags::NEED_PUSH_NOTIFIER) {
             #[allow(clippy::useless_conversion)]
@@ -460,12 +487,16 @@ impl Driver {
                     .into(),
             )?;
             self.flags.remove(DriverFlags::NEED_PUSH_NOTIFIER);
+            #[cfg(compio_verif)]
+            crate::verif::emit(crate::verif::NOTIFIER_ARMED, 0, 0);
         }
 
         self.submit_auto(timeout, need_wait)?;
 
         self.notifier.set_awake();
         self.poll_entries();
+        #[cfg(compio_verif)]
+        crate::verif::sched_point(2);
         self.notifier.set_awake();
 
         Ok(())
@@ -491,6 +522,8 @@ impl AsRawFd for Driver {
 
 impl Drop for Driver {
     fn drop(&mut self) {
+        #[cfg(compio_verif)]
+        crate::verif::emit(crate::verif::DROP_BEGIN, 0, 0);
         // Drain completed CQEs first to avoid double-free.
         let mut cqueue = self.inner.completion();
         cqueue.sync();
@@ -513,11 +546,15 @@ impl Drop for Driver {
         // `malloc_consolidate(): unaligned fastbin chunk detected` /
         // `corrupted double-linked list` during thread shutdown.
         unsafe { ManuallyDrop::drop(&mut self.inner) };
+        #[cfg(compio_verif)]
+        crate::verif::emit(crate::verif::RING_CLOSED, 0, 0);
 
         // Free remaining in-flight keys. Safe now that the kernel is done.
         for user_data in self.in_flight.drain() {
             drop(unsafe { ErasedKey::from_raw(user_data) });
         }
+        #[cfg(compio_verif)]
+        crate::verif::emit(crate::verif::DROP_END, 0, 0);
     }
 }
 
